@@ -104,3 +104,41 @@ Example C13_include_under_1995 :
   keyword_allowed_at true keywords_directive (guard_table_of (Some V_Ieee1364_1995)) keywords_1800_2017 "include" = true /\
   keyword_allowed_at false keywords_directive (guard_table_of (Some V_Ieee1364_1995)) keywords_1800_2017 "include" = false.
 Proof. vm_compute. repeat split; reflexivity. Qed.
+
+(* ------------------------------------------------------------------ the grammar pushes what the directive spells *)
+(* Over the regenerated grammar and primitive table: version_specifier is an ordered choice of eight alternatives, each
+   "keyword(t) then begin_keywords(v)"; the word t of the i-th keyword production and the set v its action pushes are
+   one of the pairs (specifier, set) of begin_keywords' own dispatch (Gen/GenKeywords.v) -- no specifier selects the set
+   of another standard. *)
+From SV Require Peg Exec GenPrims GenGrammar.
+Import Peg Exec.
+
+Definition version_eqb (a b : version) : bool :=
+  match a, b with
+  | V_Ieee1364_1995, V_Ieee1364_1995 | V_Ieee1364_2001, V_Ieee1364_2001 | V_Ieee1364_2001Noconfig, V_Ieee1364_2001Noconfig
+  | V_Ieee1364_2005, V_Ieee1364_2005 | V_Ieee1800_2005, V_Ieee1800_2005 | V_Ieee1800_2009, V_Ieee1800_2009
+  | V_Ieee1800_2012, V_Ieee1800_2012 | V_Ieee1800_2017, V_Ieee1800_2017 | V_Directive, V_Directive => true
+  | _, _ => false
+  end.
+
+Definition kw_text (k : nat) : option HandLex.bytes :=
+  match nth_error GenGrammar.grammar k with
+  | Some (mkProd _ _ (FTmpl (FLeaf (FAlt (FSeq (FPrim t :: _) :: _)) :: _) _)) =>
+      match nth_error GenPrims.prim_table (N.to_nat t) with Some (PKeyword b) => Some b | _ => None end
+  | _ => None
+  end.
+
+Definition spec_alts : list (option HandLex.bytes * N) :=
+  match nth_error GenGrammar.grammar GenGrammar.start_version_specifier with
+  | Some (mkProd _ _ (FTmpl [FAlt alts] _)) =>
+      map (fun a => match a with FTmpl [FCall k; FAct n] _ => (kw_text k, n) | _ => (None, 0%N) end) alts
+  | _ => []
+  end.
+
+Theorem C13_version_specifier_pushes_what_it_spells :
+  List.length spec_alts = 8%nat /\
+  forallb (fun ta => match fst ta, version_of_act (snd ta) with
+                     | Some b, Some v => existsb (fun sv => String.eqb (fst sv) (string_of_bytes b) && version_eqb (snd sv) v) specifiers
+                     | _, _ => false
+                     end) spec_alts = true.
+Proof. vm_compute. split; reflexivity. Qed.
